@@ -195,12 +195,25 @@ fn universe(ch: &mut Ch) -> Universe {
     // library la: m0 (base), m1 (uses m0, re-exports)
     let n0 = 1 + ch.pick(3);
     let mut m0 = String::new();
-    m0.push_str("proc.hidden push.5 drop end\n");
+    // a chain of non-exported procedures reached through exec / call / procref at every level
+    let inv = |ch: &mut Ch, target: &str| -> String {
+        match ch.pick(3) {
+            0 => format!("exec.{target} "),
+            1 => format!("call.{target} "),
+            _ => format!("procref.{target} dropw "),
+        }
+    };
+    m0.push_str("proc.hidden3 push.9 drop end\n");
+    m0.push_str(&format!("proc.hidden2 push.6 drop {}end\n", inv(ch, "hidden3")));
+    m0.push_str(&format!("proc.hidden push.5 drop {}end\n", inv(ch, "hidden2")));
     for i in 0..n0 {
         salt += 1;
         let loc = if ch.chance(1, 3) { ".2" } else { "" };
         let extra = if loc.is_empty() { String::new() } else { "push.1.2.3.4 loc_storew.1 dropw ".to_string() };
-        let callee = if i > 0 && ch.chance(1, 2) { format!("exec.p{} ", ch.pick(i)) } else if ch.chance(1, 3) { "exec.hidden ".into() } else { String::new() };
+        let callee = if i > 0 && ch.chance(1, 2) {
+            let t = format!("p{}", ch.pick(i));
+            inv(ch, &t)
+        } else if ch.chance(1, 2) { inv(ch, "hidden") } else { String::new() };
         m0.push_str(&format!("export.p{i}{loc}\n {}{}{}\nend\n", extra, body(ch, salt), callee));
         u.exports.push(("la::m0".into(), "m0".into(), format!("p{i}")));
     }
